@@ -53,7 +53,7 @@ use yash_env::semantics::{ExitStatus, Field};
 use yash_env::signal::Number;
 use yash_env::system::concurrency::WriteAll as _;
 use yash_env::system::r#virtual::{
-    FileBody, Inode, SIGINT, SIGQUIT, SIGTERM, SIGTSTP, SIGTTIN, SIGTTOU, SIGURG, SIGUSR1, SystemState,
+    FileBody, Inode, SIGINT, SIGKILL, SIGQUIT, SIGTERM, SIGTSTP, SIGTTIN, SIGTTOU, SIGURG, SIGUSR1, SystemState,
 };
 use yash_env::system::{Disposition, FdFlag, GetPid as _, Mode, SendSignal as _, Umask as _};
 use yverif::proto::{Opts, dec_bytes, emit, enc_str, guarded, quiet_panics};
@@ -116,6 +116,9 @@ fn is_in(x: &str, xs: &[&str]) -> bool {
 }
 
 fn sig_number(name: &str) -> Option<Number> {
+    if name == "KILL" {
+        return Some(SIGKILL);
+    }
     SIGS.iter().find(|s| s.0 == name).and_then(|s| s.1)
 }
 
@@ -251,7 +254,7 @@ fn render_op(t: &[String]) -> Option<String> {
         ("local", 3) if is_in(a(1)?, &VARS) && is_in(a(2)?, &VALS) => {
             format!("lf() {{ typeset {}={}; probe L \"${}\"; }}\nlf", t[1], t[2], t[1])
         }
-        ("raise", 2) if is_in(a(1)?, &OP_SIGS) && t[1] != "EXIT" => format!("selfsig {}", t[1]),
+        ("raise", 2) if (is_in(a(1)?, &OP_SIGS) && t[1] != "EXIT") || t[1] == "KILL" => format!("selfsig {}", t[1]),
         // a background job that never finishes (the FIFO is never opened for writing)
         // (stdout is redirected so that the job does not hold the write end of a pipeline / command substitution)
         ("bg", 1) => "{ exec >|/dev/null 3>&- 4>&- 5>&-; cat </o/fifo; } &".to_string(),
@@ -810,6 +813,8 @@ fn run_raw(script: &str, args: Vec<String>, su: &Setup) -> (shell::Outcome, Opti
             drop(st);
             if su.internal {
                 use futures_util::FutureExt as _;
+                // an interactive shell: the option, and the internal dispositions its start-up installs
+                env.options.set(yash_env::option::Option::Interactive, yash_env::option::State::On);
                 let sys = Rc::clone(&env.system);
                 env.traps.enable_internal_dispositions_for_terminators(&sys).now_or_never();
                 env.traps.enable_internal_dispositions_for_stoppers(&sys).now_or_never();
@@ -884,7 +889,10 @@ fn oracle(c: &Case, r: &Run, control: Option<&Run>) -> String {
         // ---- 1. nothing leaks into the shell of level j
         match snap_of(&r.items, &at) {
             None => {
-                if errexit_possible(&at) {
+                // the documented exception: an interactive top-level shell whose child was killed by SIGINT
+                // abandons the command line (here: the rest of the script) with that status
+                let interrupted = j == 0 && c.internal && r.status == 386;
+                if interrupted || errexit_possible(&at) {
                     skipped = true;
                 } else {
                     fails.push(format!("snapshot-missing-{at}"));
@@ -929,7 +937,12 @@ fn oracle(c: &Case, r: &Run, control: Option<&Run>) -> String {
         }
         // ---- 3. copy on entry
         let Some(ch) = snap_of(&r.items, &ct) else {
-            fails.push(format!("snapshot-missing-{ct}"));
+            // an interrupted top-level command substitution never delivers its output
+            if j == 0 && c.internal && r.status == 386 && c.kinds[0] == "subst" {
+                skipped = true;
+            } else {
+                fails.push(format!("snapshot-missing-{ct}"));
+            }
             break;
         };
         let kind = c.kinds[j].as_str();
@@ -970,9 +983,14 @@ fn oracle(c: &Case, r: &Run, control: Option<&Run>) -> String {
         for (s, d) in &b.disp {
             let forced = forced_kind && (s == "INT" || s == "QUIT");
             let user_ignored = shown.get(s).map(|x| x.as_str()) == Some("i");
-            let inherited = c.ignored.as_deref() == Some(s.as_str());
+            // (an interactive shell may trap a signal it inherited ignored: then the listing tells)
+            let touched = c.pro.iter().any(|t| t[0] == "trap" && &t[1] == s);
+            let inherited = j == 0
+                && c.ignored.as_deref() == Some(s.as_str())
+                && !(c.internal && (touched || !c.quiet));
             // an interactive job-control shell's non-job-controlled subshell keeps ignoring the stop signals
-            let kept_stopper = s.starts_with("T") && s != "TERM" && d == "I" && !jc;
+            // (a command substitution is never job-controlled)
+            let kept_stopper = s.starts_with("T") && s != "TERM" && d == "I" && !(jc && kind != "subst");
             // inside a subshell no internal disposition is left (the first entry cleared them), so an ignoring
             // disposition there is an ignore action even when `trap` still shows the remembered parent command
             let deep_ignore = j >= 1 && d == "I";
@@ -988,7 +1006,9 @@ fn oracle(c: &Case, r: &Run, control: Option<&Run>) -> String {
             let pc = ch.traps.get(*name);
             let forced = (forced_kind && (*name == "INT" || *name == "QUIT"))
                 || (name.starts_with('T') && *name != "TERM" && ch.disp.get(*name).map(|x| x.as_str()) == Some("I"))
-                || (c.ignored.as_deref() == Some(*name));
+                || (j == 0
+                    && c.ignored.as_deref() == Some(*name)
+                    && !(c.internal && c.pro.iter().any(|t| t[0] == "trap" && t[1] == *name)));
             let ok = match pb.map(|s| s.as_str()) {
                 Some("i") => pc.map(|s| s.as_str()) == Some("i"),
                 Some(_) if single => pc == pb,
@@ -1288,7 +1308,12 @@ fn abs_enter(abs: &mut Abs, kind: &str) {
 }
 
 fn gen_raise(rng: &mut Rng, abs: &Abs, phase: char) -> Option<String> {
-    let names: Vec<&str> = OP_SIGS[1..].to_vec();
+    let mut names: Vec<&str> = OP_SIGS[1..].to_vec();
+    if phase == 'C' {
+        names.push("KILL");
+        // INT is the signal with a rule of its own
+        names.push("INT");
+    }
     let s = names[rng.below(names.len())];
     let a = abs.traps.get(s).copied().unwrap_or('d');
     // the parent must survive; a child may be killed
@@ -1303,7 +1328,7 @@ fn gen_flags(rng: &mut Rng, parts: &mut Vec<String>) {
     if rng.chance(1, 4) {
         parts.push("T:1".into());
     }
-    if rng.chance(1, 6) {
+    if rng.chance(1, 4) {
         parts.push("I:1".into());
     }
     if rng.chance(1, 8) {
@@ -1490,6 +1515,58 @@ fn main() {
                     if let Some(op) = gen_op(&mut rng, &mut abs, rng_fam(i + j), 'C') {
                         parts.push(format!("C:{op}"));
                     }
+                    cases.push(parts.join("; "));
+                }
+            }
+        }
+    }
+    // (1c) children that END BY A SIGNAL: every kind nest x signal x interactive or not x the starter's SIGINT
+    // trap (default / ignored / command): every enclosing level must see the status only and go on
+    let sig_list = ["INT", "QUIT", "TERM", "KILL", "USR1"];
+    let mut nests: Vec<Vec<&str>> = KINDS.iter().map(|k| vec![*k]).collect();
+    for a in KINDS.iter() {
+        for b in KINDS.iter() {
+            nests.push(vec![a, b]);
+        }
+    }
+    for (i, a) in KINDS.iter().enumerate() {
+        for (j, b) in KINDS.iter().enumerate() {
+            if o.thorough() {
+                for c in KINDS.iter() {
+                    nests.push(vec![a, b, c]);
+                }
+            } else {
+                nests.push(vec![a, b, KINDS[(i + 2 * j + 1) % nk]]);
+            }
+        }
+    }
+    for (n, kinds) in nests.iter().enumerate() {
+        for (si, sig) in sig_list.iter().enumerate() {
+            if !o.thorough() && kinds.len() == 3 && si != n % sig_list.len() {
+                continue;
+            }
+            for interactive in [false, true] {
+                let variants: Vec<usize> = if o.thorough() { vec![0, 1, 2] } else { vec![(n + si) % 3] };
+                for v in variants {
+                    let mut parts: Vec<String> = vec![];
+                    if interactive {
+                        parts.push("I:1".into());
+                    }
+                    match v {
+                        1 => parts.push("P:trap INT i".into()),
+                        2 => parts.push("P:trap INT c1".into()),
+                        _ => {}
+                    }
+                    if rng.chance(1, 4) {
+                        parts.push("P:opt+ pipefail".into());
+                    }
+                    for k in kinds {
+                        parts.push(format!("K:{k}"));
+                    }
+                    if rng.chance(1, 3) {
+                        parts.push("C:trap EXIT c4".into());
+                    }
+                    parts.push(format!("C:raise {sig}"));
                     cases.push(parts.join("; "));
                 }
             }
